@@ -1067,7 +1067,9 @@ func (f *formatter) ExprArrayItem(n *ast.ExprArrayItem) {
 		n.AmpersandTkn = f.newToken('&', []byte("&"))
 	}
 
-	n.Val.Accept(f)
+	if n.Val != nil {
+		n.Val.Accept(f)
+	}
 }
 
 func (f *formatter) ExprArrowFunction(n *ast.ExprArrowFunction) {
